@@ -1,7 +1,7 @@
 """C03 — rendering JSONB as text yields valid JSON that denotes the same document."""
 import json, re
 from .. import gen
-from . import common
+from . import common, sizes
 
 SPEC_THEOREM = 'Props/C03: strict reading of the rendering gives the document back; pretty = compact + insignificant whitespace'
 TRUSTED = ['Coq 8.16.1 kernel', 'translator (escape table)', 'extraction + OCaml driver', 'Rust harness',
@@ -90,10 +90,16 @@ def generate(ctx):
     ctx.ds = ds
     ctx.trials = []
     non_jsonb_stream(ctx)
+    # strings / keys of 255 .. 65536 bytes (also multi-byte text crossing 256) and containers of 255 .. 1000 members (sizes.py;
+    # second review H2).  The model's renderer is quadratic in a string (0.2 s at 4 KiB, ~100 s at 64 KiB): the documents with a
+    # 64 KiB string are rendered by the implementation only and judged by the strict parser below (too_big_for_model)
+    big = sizes.string_docs() + sizes.container_docs()
+    too_big_for_model = set(id(v) for lab, v in big if lab.startswith(('str6', 'key6')))
+    ds += [v for _, v in big]
     for v in ds:
         e = gen.hexarg(gen.enc(v))
-        ctx.add('to_string %s' % e)
-        ctx.add('to_pretty_string %s' % e)
+        ctx.add('to_string %s' % e, diff=id(v) not in too_big_for_model)
+        ctx.add('to_pretty_string %s' % e, diff=id(v) not in too_big_for_model)
         ids = (ctx.add('to_string_raw %s' % e, diff=False).id, ctx.add('to_pretty_string_raw %s' % e, diff=False).id,
                ctx.add('text_roundtrip %s' % e, diff=False).id)
         ctx.trials.append((v, ids))
